@@ -6,20 +6,21 @@ Local Open Scope string_scope.
 Local Open Scope list_scope.
 
 Lemma receiver_of_read_iface : forall vs rc l i t p, resolve vs rc = Some l -> read vs l = Some (VIface i t p) ->
-  receiver vs rc = Some (l, VIface i t p, t, p, enter_of i t p).
-Proof. intros. unfold receiver. rewrite H, H0. destruct p; reflexivity. Qed.
+  receiver vs rc = Some (l, VIface i t p, t, p).
+Proof. intros. unfold receiver. rewrite H, H0. reflexivity. Qed.
 Lemma receiver_of_read_conc : forall vs rc l t p, resolve vs rc = Some l -> read vs l = Some (VConc t p) ->
-  receiver vs rc = Some (l, VConc t p, t, p, None).
+  receiver vs rc = Some (l, VConc t p, t, p).
 Proof. intros. unfold receiver. rewrite H, H0. reflexivity. Qed.
 
 (* C12, first sentence: through an interface-typed receiver (variable, copy, parameter, pointer target)
    holding dynamic type t for interface i, the body that runs is the method of the impl block registered
-   for (i, t) - found by find_impl_for_struct - although the lookup goes through the T::m table *)
+   for (i, t) - found by find_impl_for_struct - although the lookup goes through the T::m table; it runs
+   under the context of THAT block (mk_entry d m carries (i_iface d, i_type d)) *)
 Lemma dispatch_on_dynamic_type_l : forall ds r st rc l i t p d m arg,
   wf_impls ds -> register_all empty_registry ds = inl r -> s_funcs st = r_funcs r ->
   resolve (s_vars st) rc = Some l -> read (s_vars st) l = Some (VIface i t p) ->
   find_impl ds t i = Some d -> In m (i_methods d) ->
-  call st rc (m_name m) arg = invoke st l (VIface i t p) p (enter_of i t p) m arg.
+  call st rc (m_name m) arg = invoke st l (VIface i t p) t p (mk_entry d m) arg.
 Proof.
   intros ds r st rc l i t p d m arg W R F RS RD FI Hm.
   apply find_impl_some in FI as [Hd [_ Ht]].
@@ -31,7 +32,7 @@ Lemma dispatch_concrete_receiver_l : forall ds r st rc l t p d m arg,
   wf_impls ds -> register_all empty_registry ds = inl r -> s_funcs st = r_funcs r ->
   resolve (s_vars st) rc = Some l -> read (s_vars st) l = Some (VConc t p) ->
   In d ds -> i_type d = t -> In m (i_methods d) ->
-  call st rc (m_name m) arg = invoke st l (VConc t p) p None m arg.
+  call st rc (m_name m) arg = invoke st l (VConc t p) t p (mk_entry d m) arg.
 Proof.
   intros. eapply call_dispatches_l; eauto. apply receiver_of_read_conc; assumption.
 Qed.
@@ -42,7 +43,7 @@ Lemma rebinding_switches_impl_l : forall ds r st st' x i src sv t2 p d m arg,
   alookup src (s_vars st) = Some sv -> src_view sv = Some (t2, p) ->
   bind st x i src = Ok st' ->
   find_impl ds t2 i = Some d -> In m (i_methods d) ->
-  call st' (RVar x) (m_name m) arg = invoke st' (LVar x) (VIface i t2 p) p (enter_of i t2 p) m arg.
+  call st' (RVar x) (m_name m) arg = invoke st' (LVar x) (VIface i t2 p) t2 p (mk_entry d m) arg.
 Proof.
   intros ds r st st' x i src sv t2 p d m arg W R F S V B FI Hm.
   apply bind_ok_inv in B as [sv' [t' [p' [S' [V' [_ ->]]]]]].
@@ -55,7 +56,7 @@ Qed.
    the body reads, through the variable itself and through a pointer to it *)
 Lemma self_sees_latest_write_l : forall hs st x f z st1 t fs,
   alookup x (s_vars st) = Some (VConc t (PStruct fs)) -> step hs st (OSet x f z) = Ok st1 ->
-  receiver (s_vars st1) (RVar x) = Some (LVar x, VConc t (PStruct (aset f z fs)), t, PStruct (aset f z fs), None) /\
+  receiver (s_vars st1) (RVar x) = Some (LVar x, VConc t (PStruct (aset f z fs)), t, PStruct (aset f z fs)) /\
   (forall q, alookup q (s_vars st1) = Some (VPtr x) -> receiver (s_vars st1) (RPtr q) = receiver (s_vars st1) (RVar x)) /\
   (forall fr, f_self fr = PStruct (aset f z fs) -> eval fr (EField f) = inl z).
 Proof.
@@ -69,7 +70,7 @@ Qed.
 Lemma self_sees_latest_elem_write_l : forall hs st a k f z st1 t es fs,
   alookup a (s_vars st) = Some (VArr t es) -> nth_error es k = Some (PStruct fs) ->
   step hs st (OSetElem a k f z) = Ok st1 ->
-  receiver (s_vars st1) (RElem a k) = Some (LElem a k, VConc t (PStruct (aset f z fs)), t, PStruct (aset f z fs), None).
+  receiver (s_vars st1) (RElem a k) = Some (LElem a k, VConc t (PStruct (aset f z fs)), t, PStruct (aset f z fs)).
 Proof.
   intros hs st a k f z st1 t es fs A N H. cbn [step] in H. simpl in H. rewrite A, N in H.
   destruct (alookup f fs) eqn:F; [|discriminate]. inversion H; subst; clear H. simpl.
@@ -80,33 +81,72 @@ Qed.
 
 (* member writes made by the method are in the receiver after the call; no other cell changes *)
 Lemma self_writes_visible_l : forall st rc m arg st' z, call st rc m arg = Ok (st', z) ->
-  exists l v t self enter meth fr',
-    receiver (s_vars st) rc = Some (l, v, t, self, enter) /\
-    alookup (method_key t m) (s_funcs st) = Some meth /\
-    exec_body (frame0 st self enter arg) (m_body meth) = inl fr' /\
+  exists l v t self fe fr',
+    receiver (s_vars st) rc = Some (l, v, t, self) /\
+    alookup (method_key t m) (s_funcs st) = Some fe /\
+    exec_body (nested_self (s_funcs st) t) (frame0 fe self arg (s_statics st) (s_out st)) (m_body (fe_meth fe)) = inl fr' /\
     read (s_vars st') l = Some (with_payload v (f_self fr')) /\
     (forall l', disjoint l l' -> read (s_vars st') l' = read (s_vars st) l').
 Proof.
   intros st rc m arg st' z H.
-  destruct (call_ok_inv _ _ _ _ _ _ H) as [l [v [t [self [enter [meth [RC [F I]]]]]]]].
-  destruct (invoke_ok_inv _ _ _ _ _ _ _ _ _ I) as [fr' [B [_ [V _]]]].
-  exists l, v, t, self, enter, meth, fr'. split; [assumption|split; [assumption|split; [assumption|]]].
-  destruct (receiver_current_l _ _ _ _ _ _ _ RC) as [RD [PO _]].
+  destruct (call_ok_inv _ _ _ _ _ _ H) as [l [v [t [self [fe [RC [F IV]]]]]]].
+  destruct (invoke_ok_inv _ _ _ _ _ _ _ _ _ IV) as [fr' [B [V _]]].
+  apply run_method_inv in B as [B _].
+  exists l, v, t, self, fe, fr'. split; [assumption|split; [assumption|split; [assumption|]]].
+  destruct (receiver_current_l _ _ _ _ _ _ RC) as [RD [PO _]].
   rewrite V. split.
   - apply read_write_same; [assumption|].
     destruct v; simpl in PO; try discriminate; [left|right]; eauto.
   - intros l' D. apply read_write_other; assumption.
 Qed.
 
-(* a call whose receiver carries the pair (i, t) leaves the statics of every other pair alone *)
-Lemma impl_statics_separate_l : forall st rc m arg st' z l v self i t i' t' n',
-  call st rc m arg = Ok (st', z) -> receiver (s_vars st) rc = Some (l, v, t, self, Some (i, t)) ->
-  no_colon i = true -> no_colon i' = true -> no_colon t = true -> no_colon t' = true -> (i', t') <> (i, t) ->
+(* every method sees the statics of the block that declares it, whatever the receiver form:
+   its frame starts under that pair's context *)
+Lemma method_sees_own_statics_l : forall fe self arg ss out n,
+  eval (frame0 fe self arg ss out) (EStatic n) =
+  match alookup (static_key (fe_iface fe) (fe_type fe) n) ss with Some v => inl v | None => inr (EUndefVar n) end.
+Proof. intros. reflexivity. Qed.
+
+(* the impl context the caller had is in force again after a call, at top level and inside a body *)
+Lemma impl_context_restored_l :
+  (forall st rc m arg st' z, call st rc m arg = Ok (st', z) -> s_ctx st' = s_ctx st) /\
+  (forall funcs t m z fr fr1 r, nested_self funcs t m z fr = inl (fr1, r) -> f_ctx fr1 = f_ctx fr).
+Proof.
+  split.
+  - intros. apply (call_keys_l _ _ _ _ _ _ H).
+  - intros funcs t m z fr fr1 r H. apply (nested_self_ok_any funcs t _ _ _ _ _ H).
+Qed.
+
+(* `return self;` of a primitive self returns the receiver's value *)
+Lemma return_self_returns_receiver_l : forall cb fe v arg ss out,
+  m_body (fe_meth fe) = [] -> m_ret (fe_meth fe) = ESelf ->
+  exists fr', run_method cb fe (PPrim v) arg ss out = inl (fr', v).
+Proof.
+  intros cb fe v arg ss out B R. unfold run_method. rewrite B, R. simpl. eauto.
+Qed.
+
+(* a call on a receiver of dynamic type t leaves the statics of every pair with another type alone ... *)
+Lemma impl_statics_separate_l : forall ds r st rc m arg st' z l v self t i' t' n',
+  wf_impls ds -> register_all empty_registry ds = inl r -> s_funcs st = r_funcs r ->
+  call st rc m arg = Ok (st', z) -> receiver (s_vars st) rc = Some (l, v, t, self) ->
+  no_colon i' = true -> no_colon t = true -> no_colon t' = true -> no_colon n' = true -> t' <> t ->
   alookup (static_key i' t' n') (s_statics st') = alookup (static_key i' t' n') (s_statics st).
 Proof.
-  intros st rc m arg st' z l v self i t i' t' n' C RC Hi Hi' Ht Ht' NE.
-  destruct (call_statics_l _ _ _ _ _ _ C) as [_ FR].
-  eapply FR; eauto. simpl. apply ctx_keys_other_pair; assumption.
+  intros ds r st rc m arg st' z l v self t i' t' n' W R F C RC Hi' Ht Ht' Hn' NE.
+  eapply call_statics_type_l; eauto.
+  - rewrite F. eapply registered_funcs_typed; eauto.
+  - apply type_keys_other_type; assumption.
+Qed.
+(* ... and when the method found makes no nested call, of every pair but the one that declares it *)
+Lemma impl_statics_separate_leaf_l : forall st rc m arg st' z l v self t fe i' t' n',
+  call st rc m arg = Ok (st', z) -> receiver (s_vars st) rc = Some (l, v, t, self) ->
+  alookup (method_key t m) (s_funcs st) = Some fe -> has_calls (m_body (fe_meth fe)) = false ->
+  no_colon (fe_iface fe) = true -> no_colon i' = true -> no_colon (fe_type fe) = true -> no_colon t' = true ->
+  (i', t') <> (fe_iface fe, fe_type fe) ->
+  alookup (static_key i' t' n') (s_statics st') = alookup (static_key i' t' n') (s_statics st).
+Proof.
+  intros st rc m arg st' z l v self t fe i' t' n' C RC F HC Hi Hi' Ht Ht' NE.
+  eapply call_statics_leaf_l; eauto. apply ctx_keys_other_pair; assumption.
 Qed.
 
 (* statics live for the whole run: after any history every declared static still has a value *)
@@ -165,9 +205,9 @@ Qed.
 
 (* ---------- statements assembled for Properties_C12.v ---------- *)
 Lemma dispatch_table_exact_l : forall ds r, wf_impls ds -> register_all empty_registry ds = inl r ->
-  (forall d m, In d ds -> In m (i_methods d) -> alookup (method_key (i_type d) (m_name m)) (r_funcs r) = Some m) /\
-  (forall t n m, alookup (method_key t n) (r_funcs r) = Some m ->
-     exists d, In d ds /\ i_type d = t /\ In m (i_methods d) /\ m_name m = n).
+  (forall d m, In d ds -> In m (i_methods d) -> alookup (method_key (i_type d) (m_name m)) (r_funcs r) = Some (mk_entry d m)) /\
+  (forall t n fe, alookup (method_key t n) (r_funcs r) = Some fe ->
+     exists d m, In d ds /\ i_type d = t /\ In m (i_methods d) /\ m_name m = n /\ fe = mk_entry d m).
 Proof. intros ds r W R. split; [intros; eapply dispatch_registered_l; eauto|intros; eapply dispatch_sound_l; eauto]. Qed.
 
 Lemma dispatch_independent_of_registration_order_l : forall ds ds' r, Permutation ds ds' -> wf_impls ds ->
